@@ -28,7 +28,9 @@ EXTENDS AccessMode, Ranges, Integers, SequencesExt
 CONSTANTS Users,        \* abstract user names, e.g. {"u1","u2","u3"}
           Sessions,     \* abstract session names
           SessUser,     \* [Sessions -> Users]
-          Topics,       \* abstract group topic names
+          Topics,       \* all projected topic names: group topics and p2p topics ("p12" = the topic of u1 and u2)
+          RootSessions, \* sessions logged in at root level: they may act on behalf of other users; their steps are not modelled
+          GrpTopics,    \* the group topics among them: only these are MODELLED by Step (p2p steps are judged by the monitors only)
           MaxSubs,      \* configured subscriber limit
           DEV_NewSubWantO,          \* a first-time subscriber may request O in want
           DEV_UnsetWantTakesGiven,  \* un-self-ban copies given (incl. O) into want
@@ -313,14 +315,14 @@ DeleteTopic(S, t) ==
 
 DelTopicStep(S, a) ==
   LET t == a.t  s == a.s  u == SessUser[s]  c == S.cache[t] IN
-  IF ~S.topics[t].exists THEN Reply(S, 404)
+  IF ~S.topics[t].exists THEN Reply(S, 304)
   ELSE IF c.loaded THEN
      IF c.owner = u THEN Reply(DeleteTopic(S, t), 200)
      ELSE IF S.subs[t][u].st # "live" THEN Reply(S, 304)
      ELSE Reply(Evict(UnsubRow(S, t, u), t, u, TRUE), 200)
   ELSE
      LET row == S.subs[t][u] IN
-     IF row.st # "live" THEN Reply(S, IF \E v \in Users : S.subs[t][v].st = "live" THEN 403 ELSE 304)
+     IF row.st # "live" THEN Reply(S, 304)          \* "if user has no subscription, tell him all is fine"
      ELSE IF "O" \in Eff(row) THEN Reply(DeleteTopic(S, t), 200)
      ELSE Reply(UnsubRow(S, t, u), 200)
 
@@ -430,16 +432,19 @@ ReloadStep(S, a) ==
 \* ---------------------------------------------------------------- session disconnect: detach from everything
 DisconnectStep(S, a) ==
   LET s == a.s
-      DetachAll[ts \in SUBSET Topics] == IF ts = {} THEN S
+      DetachAll[ts \in SUBSET GrpTopics] == IF ts = {} THEN S
                                          ELSE LET t == CHOOSE x \in ts : TRUE IN Detach(DetachAll[ts \ {t}], t, s)
-      S1 == DetachAll[M(S.sess[s].subs) \cap Topics]
+      S1 == DetachAll[M(S.sess[s].subs) \cap GrpTopics]
   IN Reply([S1 EXCEPT !.sess[s] = [live |-> FALSE, subs |-> <<>>]], 0)
 
 \* ---------------------------------------------------------------- observation requests: no state change
 GetStep(S, a) == Reply(S, -2)     \* -2: the reply of an observation request is not predicted (its content is judged by the monitors)
 
+Unmodelled(a) == ("t" \in DOMAIN a /\ a.t \notin GrpTopics) \/ ("obo" \in DOMAIN a /\ a.obo # "")
+                 \/ ("s" \in DOMAIN a /\ a.s \in RootSessions)
 Step(S, a) ==
-  CASE a.a = "NewGrp"     -> NewGrpStep(S, a)
+  CASE Unmodelled(a)      -> Reply(S, -1)
+    [] a.a = "NewGrp"     -> NewGrpStep(S, a)
     [] a.a = "Sub"        -> SubStep(S, a)
     [] a.a = "Leave"      -> LeaveStep(S, a)
     [] a.a = "SetSelf"    -> SetSelfStep(S, a)
@@ -456,5 +461,5 @@ Step(S, a) ==
     [] a.a = "Get"        -> GetStep(S, a)
     [] OTHER              -> Reply(S, 0)
 
-Modelled(a) == a.a \in {"Reload", "DelMsg", "DelTopic", "SetDesc", "NewGrp", "Sub", "Leave", "SetSelf", "SetOther", "DelSub", "Pub", "Note", "Unload", "Disconnect", "Get"}
+Modelled(a) == ~Unmodelled(a) /\ a.a \in {"Reload", "DelMsg", "DelTopic", "SetDesc", "NewGrp", "Sub", "Leave", "SetSelf", "SetOther", "DelSub", "Pub", "Note", "Unload", "Disconnect", "Get"}
 =============================================================================
